@@ -10,6 +10,7 @@ import (
 
 	"github.com/freeconf/yang/node"
 	"github.com/freeconf/yang/nodeutil"
+	"github.com/freeconf/yang/val"
 )
 
 // StoreKind describes one node implementation bound as target/store.
@@ -66,11 +67,11 @@ func buildStruct(f *Fixture, t *abs.Tree, at abs.Path, sv reflect.Value) {
 		switch n.Kind {
 		case "leaf":
 			if v, ok := t.LeafAt(p); ok && len(v) == 1 {
-				fv.Set(reflect.ValueOf(LexToGo(n.Type, v[0])).Convert(fv.Type()))
+				fv.Set(reflect.ValueOf(LexToGoN(n, v[0])).Convert(fv.Type()))
 			}
 		case "leaflist":
 			if v, ok := t.LeafAt(p); ok {
-				fv.Set(reflect.ValueOf(lexListToGo(n.Type, v)).Convert(fv.Type()))
+				fv.Set(reflect.ValueOf(lexListToGo(n, v)).Convert(fv.Type()))
 			}
 		case "container":
 			if t.HasCont(p) {
@@ -101,11 +102,11 @@ func (k *StoreKind) buildInto(f *Fixture, t *abs.Tree, at abs.Path, m map[string
 		switch n.Kind {
 		case "leaf":
 			if v, ok := t.LeafAt(p); ok && len(v) == 1 {
-				m[name] = LexToGo(n.Type, v[0])
+				m[name] = LexToGoN(n, v[0])
 			}
 		case "leaflist":
 			if v, ok := t.LeafAt(p); ok {
-				m[name] = lexListToGo(n.Type, v)
+				m[name] = lexListToGo(n, v)
 			}
 		case "container":
 			if t.HasCont(p) {
@@ -129,12 +130,13 @@ func (k *StoreKind) buildInto(f *Fixture, t *abs.Tree, at abs.Path, m map[string
 				}
 				m[name] = l
 			} else {
-				kt := f.DS.Node(append(append([]string{}, n.SP...), n.Keys[0])).Type
+				kn := f.DS.Node(append(append([]string{}, n.SP...), n.Keys[0]))
+				kt := kn.Type
 				l := newListMap(kt)
 				for _, key := range keys {
 					e := map[string]any{}
 					k.buildInto(f, t, p.Child(abs.E(name, key...)), e)
-					l.SetMapIndex(reflect.ValueOf(LexToGo(kt, key[0])), reflect.ValueOf(e))
+					l.SetMapIndex(reflect.ValueOf(LexToGoN(kn, key[0])), reflect.ValueOf(e))
 				}
 				m[name] = l.Interface()
 			}
@@ -157,14 +159,29 @@ func newListMap(keyType string) reflect.Value {
 	return reflect.ValueOf(map[any]any{})
 }
 
-func lexListToGo(typ string, vs []string) any {
-	if len(vs) == 0 {
-		return reflect.MakeSlice(reflect.SliceOf(reflect.TypeOf(LexToGo(typ, "0"))), 0, 0).Interface()
+func lexListToGo(n *abs.SNode, vs []string) any {
+	// what the library stores for these leaf-lists: Value() of the list value
+	switch n.Type {
+	case "enumeration":
+		l := val.EnumList{}
+		for _, v := range vs {
+			l = append(l, LexToGoN(n, v).(val.Enum))
+		}
+		return l
+	case "identityref":
+		l := val.IdentRefList{}
+		for _, v := range vs {
+			l = append(l, LexToGoN(n, v).(val.IdentRef))
+		}
+		return l
 	}
-	first := LexToGo(typ, vs[0])
+	if len(vs) == 0 {
+		return reflect.MakeSlice(reflect.SliceOf(reflect.TypeOf(LexToGoN(n, "0"))), 0, 0).Interface()
+	}
+	first := LexToGoN(n, vs[0])
 	sl := reflect.MakeSlice(reflect.SliceOf(reflect.TypeOf(first)), 0, len(vs))
 	for _, v := range vs {
-		sl = reflect.Append(sl, reflect.ValueOf(LexToGo(typ, v)))
+		sl = reflect.Append(sl, reflect.ValueOf(LexToGoN(n, v)))
 	}
 	return sl.Interface()
 }
@@ -229,10 +246,10 @@ func projectInto(f *Fixture, t *abs.Tree, at abs.Path, m reflect.Value) {
 		}
 		switch n.Kind {
 		case "leaf":
-			t.Leaf = append(t.Leaf, abs.LeafItem{P: p, V: []string{GoToLex(v.Interface())}})
+			t.Leaf = append(t.Leaf, abs.LeafItem{P: p, V: []string{GoToLexN(n, v.Interface())}})
 		case "leaflist":
 			// YANG has no empty leaf-list: zero elements = the leaf-list does not exist
-			if vs := GoToLexList(v.Interface()); len(vs) > 0 {
+			if vs := GoToLexList(n, v.Interface()); len(vs) > 0 {
 				t.Leaf = append(t.Leaf, abs.LeafItem{P: p, V: vs})
 			}
 		case "container":
@@ -249,7 +266,8 @@ func projectInto(f *Fixture, t *abs.Tree, at abs.Path, m reflect.Value) {
 				var key []string
 				if mapKey != nil {
 					// identity of a map-backed entry is its map key (single key lists)
-					key = []string{GoToLex(mapKey.Interface())}
+					kn := f.DS.Node(append(append([]string{}, n.SP...), n.Keys[0]))
+					key = []string{GoToLexN(kn, mapKey.Interface())}
 				} else {
 					for _, kn := range n.Keys {
 						var kv reflect.Value
@@ -260,7 +278,7 @@ func projectInto(f *Fixture, t *abs.Tree, at abs.Path, m reflect.Value) {
 						}
 						kv = unwrap(kv)
 						if kv.IsValid() {
-							key = append(key, GoToLex(kv.Interface()))
+							key = append(key, GoToLexN(f.DS.Node(append(append([]string{}, n.SP...), kn)), kv.Interface()))
 						} else {
 							key = append(key, "<unset>")
 						}
